@@ -2,7 +2,7 @@
 import random
 from .. import core, sysgen, reader, gen
 
-MODULES = ['DsdVerif.Props.C16', 'DsdVerif.Props.PyReaderFns', 'DsdVerif.Props.PyReadLine']
+MODULES = ['DsdVerif.Props.C16', 'DsdVerif.Props.PyReaderFns', 'DsdVerif.Props.PyReadLine', 'DsdVerif.Props.PyReadLine2']
 GEN_FILES = ['Symbols', 'Grammars', 'PyReaderFns', 'GrammarUnits', 'PyReadLine']
 THEOREMS = ['Dsd.Symbols.no_unresolved_global', 'Dsd.C16.reader_never_faults', 'Dsd.C16.readLine_never_faults_fresh',
             'Dsd.C16.typed_lineOK', 'Dsd.C16.resolveKernel_ok', 'Dsd.C16.resolveKernel_total',
@@ -17,6 +17,8 @@ THEOREMS += ['Dsd.PyReaderFns.' + t for t in [
     'py_ignored_reaction_six_nones', 'py_accepted_reaction', 'py_ignored_reaction_survives', 'py_no_info_box_six_nones']]
 # read_pil_line as written in the source (translator/pyreaderfn3.py -> Gen/PyReadLine.lean; constructions are request parameters; PARTIAL: strand-complex / kernel-complex are raising stubs, only the dl-domain branch is proved equal to the model, no stream yet)
 THEOREMS += ['Dsd.PyReadLine.' + t for t in ['py_unconfigured_hands_back', 'py_dl_domain_eq_model', 'py_dl_domain_no_own_fault']]
+# read_pil_line: the sl-domain and composite-domain branches equal the reader model
+THEOREMS += ['Dsd.PyReadLine2.' + t for t in ['py_sl_domain_eq_model', 'py_composite_domain_eq_model', 'py_comprehension_is_listComp']]
 ASSUMPTIONS = [
     'static part: the global-name reference table of every function / method / lambda / comprehension / class body of the package is '
     'regenerated with symtable by translator/gen.py; a name bound anywhere at module level (incl. inside if/try, via import or import *) '
@@ -254,6 +256,8 @@ def run(res, proof):
     import random as _r
     from .pyreaderfn_stream import stream_read_reaction
     core.run_stream(stream_read_reaction, res, proof, _r.Random(res.seed * 5915587 + 1416), res.tier == 'quick')     # read_reaction as translated from the working tree
+    from .pyreadline_stream import source_derived_pyreadline
+    core.run_stream(source_derived_pyreadline, res, proof)      # read_pil_line (six branches) as translated from the working tree, requests recorded by proxy classes
     for (lab, txt) in labels[::max(1, len(labels) // 8)]:
         res.sample({'label': lab, 'text': txt})
     res.rule = ('%d generated valid systems, each with single-fault corruptions of 15 kinds (dropped / undeclared object, conflicting '
